@@ -1,6 +1,7 @@
 package props
 
 import (
+	"os"
 	"fmt"
 	"strconv"
 	"strings"
@@ -35,6 +36,7 @@ type MCmd struct {
 	Extend     bool     // pause --extend
 	Warn       bool     // run with warnings enabled (klog's default) instead of --no-warn
 	Ticks      []int    // pause: clock offsets in seconds (relative to the command's start) at the iterations of the loop
+	Sabotage   int      // pause: before iteration k (k >= 2) of the loop somebody else leaves the file unparseable (0 = never)
 }
 
 // MEnv is the environment of a mutating command.
@@ -244,6 +246,9 @@ func runMutating(e *core.Env, c MCmd, env MEnv, file string, viaCLI bool) MResul
 	iter := 0
 	onPrint := func(cx *obs.Ctx, s string) {
 		if c.Kind == "pause" && s == "\033[H\033[J" {
+			if c.Sabotage >= 2 && iter == c.Sabotage-1 && file != "" {
+				_ = os.WriteFile(file, []byte("this is no longer a klog file\n    (somebody is editing it)\n"), 0644)
+			}
 			if iter < len(c.Ticks) {
 				cx.Clock = clock.Add(time.Duration(c.Ticks[iter]) * time.Second)
 			}
